@@ -173,7 +173,7 @@ theorem insertFinish_props (b : SecBuf) (ns n : BitVec 64) (hb : Bound b.cls ns.
     (b.insertFinish ns n).isLoaded = b.isLoaded := by
   have h1 := setSize_toNat b ns hb
   obtain ⟨h2, h3, h4, h5, h6, h7, h8⟩ := setSize_other b ns
-  unfold SecBuf.insertFinish
+  rw [SecBuf.insertFinish_hand]
   by_cases ht : (b.setSize ns).translatorEmpty = true
   · simp only [ht, if_true]; exact ⟨h1, h2, h3, h5, h4, h6, h7⟩
   · simp only [ht, if_false]; exact ⟨h1, h2, h3, h5, h4, h6, h7⟩
@@ -475,7 +475,7 @@ theorem setFinish_props (b : SecBuf) (hb : Bound b.cls b.dataSize.toNat) :
     b.setFinish.isLoaded = b.isLoaded := by
   have h1 := setSize_toNat b b.dataSize hb
   obtain ⟨h2, h3, h4, h5, h6, h7, h8⟩ := setSize_other b b.dataSize
-  unfold SecBuf.setFinish
+  rw [SecBuf.setFinish_hand]
   by_cases ht : (b.setSize b.dataSize).translatorEmpty = true
   · simp only [ht, if_true]; exact ⟨h1, h2, h3, h5, h4, h6, h7⟩
   · simp only [ht, if_false]; exact ⟨h1, h2, h3, h5, h4, h6, h7⟩
@@ -499,7 +499,7 @@ theorem set_refines (b : SecBuf) (hI : b.Inv) (raw : Bytes) (hb : Bound b.cls ra
     rw [rdRange_some_ok (by omega)]; simp [slice]
   have hw := wr_ok "set_data/copy" (alloc raw.length) 0 raw (by simp)
   have hwe : wr (alloc raw.length) 0 raw = raw := by simp [wr]
-  unfold SecBuf.setData
+  rw [SecBuf.setData_hand]
   simp only [s32_sd_not_nobits, s32_sd_alloc, ite_self, hnn, if_true, sec64_set_data_alloc, hn, hr, hw,
     hwe, bind, Except.bind, pure, Except.pure]
   obtain ⟨f1, f2, f3, f4, f5, f6, f7⟩ := setFinish_props
@@ -564,12 +564,12 @@ theorem nobits_never_data (b : SecBuf) (hty : b.stype = BitVec.ofNat 32 SHT_NOBI
     (∀ pos raw, b.insertData pos raw = .ok b) ∧ (∀ raw, b.appendData raw = .ok b) := by
   refine ⟨?_, ?_, ?_⟩
   · intro raw sz b' e
-    unfold SecBuf.setData at e
+    rw [SecBuf.setData_hand] at e
     simp only [s32_sd_not_nobits, ite_self, sec64_set_data_not_nobits, hty, bne_self_eq_false,
       Bool.false_eq_true, if_false, pure, Except.pure] at e
     cases e
     obtain ⟨s2, s3, s4, s5, s6, s7, s8⟩ := setSize_other b b.dataSize
-    unfold SecBuf.setFinish
+    rw [SecBuf.setFinish_hand]
     by_cases ht : (b.setSize b.dataSize).translatorEmpty = true
     · simp only [ht, if_true]; exact ⟨by rw [s2]; exact hd, s4⟩
     · simp only [ht, Bool.false_eq_true, if_false]; exact ⟨by rw [s2]; exact hd, s4⟩
